@@ -10,6 +10,7 @@ from warnings import warn
 
 import numpy as np
 import pandas as pd
+from MDAnalysis.lib.mdamath import triclinic_vectors
 from MDAnalysis.lib.pkdtree import PeriodicKDTree
 from pymatgen.core import Structure
 
@@ -513,12 +514,16 @@ def _calculate_atom_states(
 
     cutoff = max(list(site_radius.values()))
 
-    traj_frac_coords = trajectory.positions.reshape(-1, 3)
-    traj_cart_coords = lattice.get_cartesian_coords(traj_frac_coords)
+    # The periodic KD-tree works in the MDAnalysis box frame (a along x, b in the xy-plane),
+    # which differs from the orientation of `lattice.matrix` for non-orthogonal or rotated cells.
+    # Cartesian coordinates must be expressed in the frame of the box the tree uses.
+    box = np.array(lattice.parameters, dtype=np.float32)
+    box_matrix = triclinic_vectors(box)
 
-    periodic_tree: PeriodicKDTree = PeriodicKDTree(
-        box=np.array(lattice.parameters, dtype=np.float32)
-    )
+    traj_frac_coords = trajectory.positions.reshape(-1, 3)
+    traj_cart_coords = np.dot(traj_frac_coords, box_matrix)
+
+    periodic_tree: PeriodicKDTree = PeriodicKDTree(box=box)
     periodic_tree.set_coords(traj_cart_coords, cutoff=cutoff)
 
     shape = trajectory.positions.shape[0:2]
@@ -535,7 +540,7 @@ def _calculate_atom_states(
             frac_coords = sites.frac_coords
             key = None
 
-        cart_coords = lattice.get_cartesian_coords(frac_coords)
+        cart_coords = np.dot(frac_coords, box_matrix)
         site_index = periodic_tree.search_tree(cart_coords, radius * site_inner_fraction)
 
         if site_index.size == 0:
